@@ -8,6 +8,19 @@ TRUST = ("TLC; the reading of MCNP/TRIPOLI-4 semantics written down in DESIGN.md
          "(harness/vt4/shim.py) standing in for TatSu; the .t4 tokenizer and numeric SURF evaluator "
          "(harness/vt4/t4file.py); the concretiser that spells abstract decks as MCNP text")
 CHECKS = {
+ 'C03': dict(cat='model_checking', ref='6/C03',
+   text=("GenBody.tla enumerates macrobody cards of every kind (axis-aligned and oblique frames, both handednesses, all "
+         "orders of the edge vectors, both parameterisations of RHP/HEX, REC, ELL, both openings of TRC, ARB with permuted "
+         "facet lists); each body and each facet is converted in a deck with the probe cells -b/+b resp. -b.k/+b.k and "
+         "TraceDeck.tla compares the owners of a half-integer grid with McnpSurf.InBody/FacetSense."),
+   technique='TLA+ transcription of the macrobody definitions (McnpSurf.Facets) enumerated by TLC; conversions of the real code validated by TLC on sense rows'),
+ 'C02': dict(cat='model_checking', ref='6/C02',
+   text=("GenSurf.tla enumerates surface cards of every mnemonic over parameter grids covering the converter's case "
+         "splits (small grid exhaustively, large grid exhaustively in thorough / sampled in quick); each card is converted "
+         "in a one-surface deck with probe cells -s/+s; TraceDeck.tla decides the sense on a half-integer grid against "
+         "McnpSurf.RefSense and, for polynomial cards, the exact polynomial identity of the emitted SURF with "
+         "McnpSurf.CardQ (same zero set at all points)."),
+   technique='TLA+ transcription of the MCNP surface equations (McnpSurf) enumerated by TLC; one conversion of the real code per generated card, validated by TLC (sense rows + exact coefficient identity)'),
  'C01': dict(cat='model_checking', ref='6/C01',
    text=("GenBool.tla behaviours (priority partitions over surface cards incl. collections, duplicates, #n and #( )) "
          "are concretised and converted by the real code; TraceDeck.tla recomputes MCNP's owner of every probe point "
